@@ -41,7 +41,7 @@ def _replay_fixed_worker(args):
     return n, rep.violations
 
 
-def run_model_check(check, specs, tier, level, bounds, rule, assumptions=None, extra_cov=None, validate_model=True, still_violates=None):
+def run_model_check(check, specs, tier, level, bounds, rule, assumptions=None, extra_cov=None, validate_model=True, still_violates=None, extra_violations=None):
     sys.setrecursionlimit(max(sys.getrecursionlimit(), 20000))
     rep = common.Report(check.prop, tier, level)
     pinned = 0
@@ -53,6 +53,8 @@ def run_model_check(check, specs, tier, level, bounds, rule, assumptions=None, e
             rep.violation({"kind": "pinned-sample", "family": "pest-suite samples", "mode": "IU", "grammar": b["grammar"], "rule": b["rule"],
                            "input": b["input"], "start_pos": 0, "expected": show(b["model"]), "got": show(b["impl"])})
         pinned -= len(bad)
+    for v in extra_violations or []:
+        rep.violation(v)
     agg, failures, total_failures, extras = engine.run(check, specs)
     att = attribution.attribute(check.prop, failures, total_failures, rep)
     # regression witnesses run in a forked child so that the parent stays pristine
